@@ -86,11 +86,18 @@ func (g *c07Gen) walk(src *mgen.Type, vecN int, vecSc bool, constOnly bool, maxL
 		if structIdx >= 0 {
 			if n > 0 && !sc && rng.Intn(3) == 0 {
 				var es []string
+				form := "struct-splat-vector"
 				for i := 0; i < n; i++ {
-					es = append(es, fmt.Sprintf("i32 %d", structIdx))
+					if structIdx == 0 && rng.Intn(2) == 0 {
+						// the element 0 spelled `i32 zeroinitializer`
+						es = append(es, "i32 zeroinitializer")
+						form = "struct-splat-vector+zeroinitializer-element"
+					} else {
+						es = append(es, fmt.Sprintf("i32 %d", structIdx))
+					}
 				}
 				idx = append(idx, fmt.Sprintf("<%d x i32> <%s>", n, strings.Join(es, ", ")))
-				forms = append(forms, "struct-splat-vector")
+				forms = append(forms, form)
 			} else {
 				idx = append(idx, fmt.Sprintf("i32 %d", structIdx))
 				forms = append(forms, "struct-i32")
@@ -179,6 +186,8 @@ func (g *c07Gen) walk(src *mgen.Type, vecN int, vecSc bool, constOnly bool, maxL
 					}
 					if it == "i1" {
 						es = append(es, "i1 "+[]string{"false", "true"}[c%2])
+					} else if c == 0 && rng.Intn(4) == 0 {
+						es = append(es, it+" zeroinitializer")
 					} else {
 						es = append(es, fmt.Sprintf("%s %d", it, c))
 					}
